@@ -3,11 +3,13 @@ once.
 
 A case is a plain dictionary::
 
-    {'root': SECTION, 'full': bool, 'fresh': bool}
+    {'root': SECTION, 'full': bool, 'fresh': bool, 'prev': SECTION | None}
     SECTION = {'t': title, 'x': bool (has introductory text), 'c': [SECTION | RESULT, ...]}
     RESULT  = {'r': 'eq' | 'st' | 'md', 'ok': bool}
 
-``run_case`` builds the :class:`TestReport` tree (every section text and every
+``prev`` is an earlier, always writable report formatted with the same
+:class:`Rst` object before ``root`` and written after it (both must be intact:
+two-step history).  ``run_case`` builds the :class:`TestReport` tree (every section text and every
 result description is a unique token, every result has its own fingerprint),
 formats it with :class:`Rst`, writes it with :meth:`FormattedRst.write` into a
 private directory and compares the files with a reference model computed from
@@ -44,8 +46,10 @@ RULE = ('cases = report trees of 1-5 levels (6 levels in ~3 %: rejection expecte
         'along a path: ordinary words (blanks, dots, commas, unicode), reserved names (index, '
         'figures, conf, conf.py, index.rst, .static, .templates, <word>.rst), titles that cannot '
         'be file names (".", "..", with "/", with NUL, empty) and random single-line text; '
-        'target directory absent or existing-and-empty; TableRepresenter (FullRepresenter, which '
-        'writes figures, in ~4 %), verbosity DEFAULT. Oracle = reference model of the page layout '
+        'target directory existing-and-empty or absent together with its parent; TableRepresenter '
+        '(FullRepresenter for the first three results, so that figures are written, in ~5 %), '
+        'verbosity DEFAULT; in ~17 % an earlier small report is formatted by the same Rst object '
+        'first and written afterwards. Oracle = reference model of the page layout '
         'computed from the case + unique tokens for every section text / result. non-trivial = '
         '(>= 3 levels and >= 2 results on different pages) or a reserved or invalid title in the '
         'tree; distinct = structural hash of the case')
@@ -57,8 +61,8 @@ ASSUMPTIONS = [
     'sections with the same chain of titles share one page (that is how the code keys sections); '
     'the page must then hold the texts and results of all of them, each exactly once',
     'a chain of titles that cannot be laid out (first-level title equal to the root page name '
-    '"index"; a page file such as "conf.py"/"index.rst"/"T.rst" that is also needed as a '
-    'directory) may be rejected with ValueError before anything is written; if the report is '
+    '"index"; a file such as "conf.py", ".static/valjean.css", "index.rst" or the page '
+    '"T.rst" of a sibling that is also needed as a directory) may be rejected with ValueError before anything is written; if the report is '
     'written instead, all clauses apply',
     'the title of the root section is never used as a file name, so it may be anything',
     'a table-of-contents entry is resolved like Sphinx does (relative to the directory of the '
@@ -71,7 +75,7 @@ BUDGET = {'quick': {'cases': 8000, 'shards': 16, 'seconds': 150, 'shrink_s': 40}
           'thorough': {'cases': 160000, 'shards': 16, 'seconds': 1500, 'shrink_s': 90}}
 FLOORS = {'nontrivial': 0.30, 'nt-deep-multipage': 0.15, 'reserved-title': 0.15,
           'invalid-title': 0.04, 'dup-siblings': 0.05, 'dup-along-path': 0.05,
-          'levels>=4': 0.10, 'written': 0.50, 'collision': 0.02, 'full-representer': 0.01,
+          'levels>=4': 0.10, 'expect-written': 0.50, 'collision': 0.02, 'full-representer': 0.01,
           'empty-section': 0.20}
 
 HEADER_DEPTHS = 5          # "the supported five levels"
@@ -116,6 +120,13 @@ def _section(draw, level, levels):
             items.insert(draw(st.integers(0, len(items))), draw(_section(level + 1, levels)))
     else:
         items = draw(st.lists(_RESULT, max_size=3))
+    if title == '.static' and level + 1 < levels and draw(st.booleans()):
+        # aim at the style sheet that setup() writes into .static
+        subs = [it for it in items if 't' in it]
+        if subs:
+            subs[0]['t'] = 'valjean.css'
+            if not any('t' in it for it in subs[0]['c']):
+                subs[0]['c'].append({'t': 'A', 'x': False, 'c': []})
     return {'t': title, 'x': has_text, 'c': items}
 
 
@@ -219,8 +230,11 @@ def _model(root, base=0):
     for chain in usable:
         for k in range(1, len(chain)):
             dirs.add('/'.join(chain[:k]))
-    if dirs & (set(pages) | {'conf.py'}):
+    clashes = dirs & (set(pages) | {'conf.py', '.static/valjean.css'})
+    if clashes:
         collisions.add('dirfile')
+    mod['clashes'] = sorted({c if c in ('conf.py', '.static/valjean.css', 'index.rst')
+                             else 'page-of-a-sibling' for c in clashes})
     mod['collisions'] = sorted(collisions)
     mod['pages'] = None if kinds else {_page_of(c): c for c in chains}   # page -> chain
     return mod
@@ -332,11 +346,8 @@ def _resolve(entry, page):
 
 
 def _feature(chain, chains):
-    if len(chains.get(chain, ())) > 1:
-        return 'dup-chain'
-    if any(t in RESERVED_SET for t in chain):
-        return 'reserved-title'
-    return 'plain'
+    """Cause feature of a page: several sections share it, or one."""
+    return 'dup-chain' if len(chains.get(chain, ())) > 1 else 'single'
 
 
 # --------------------------------------------------------------------------
@@ -366,9 +377,10 @@ def _labels(case, mod, out):
         out.labels.append('unicode-title')
     if mod['too_deep']:
         out.labels.append('too-deep')
-    for kind in mod['collisions']:
+    if mod['collisions']:
         out.labels.append('collision')
-        out.labels.append('collision=' + kind)
+    out.labels.extend('collision=' + kind for kind in mod['collisions'])
+    out.labels.extend('clash:' + kind for kind in mod['clashes'])
     out.labels.append('full-representer' if case['full'] else 'table-representer')
     out.labels.append('target-absent' if case['fresh'] else 'target-empty-dir')
     pages_with_results = {s.chain for s in secs if s.results}
@@ -380,6 +392,8 @@ def _labels(case, mod, out):
     out.nontrivial = bool(deep_multi or reserved or mod['invalid'])
     if out.nontrivial:
         out.labels.append('nontrivial')
+    if not (mod['too_deep'] or mod['invalid'] or mod['collisions']):
+        out.labels.append('expect-written')
 
 
 def _expect_rejection(mod):
@@ -413,7 +427,8 @@ def run_case(case):
             return (full if result.test.name in ('res0', 'res1', 'res2') else table)(result, verbosity)
     tmp = tempfile.mkdtemp(prefix='c20-', dir='/dev/shm' if os.path.isdir('/dev/shm') else '/var/tmp')
     try:
-        target = os.path.join(tmp, 'out')
+        # existing empty directory, or a path of which the last two levels do not exist yet
+        target = os.path.join(tmp, 'out', 'report') if case['fresh'] else os.path.join(tmp, 'out')
         if not case['fresh']:
             os.mkdir(target)
         rst = Rst(Representation(representer))
@@ -435,13 +450,13 @@ def run_case(case):
         files, dirs = ([], [])
         if os.path.isdir(target):
             files, dirs = _listing(target)
-        outside = sorted(set(os.listdir(tmp)) - {'out'})
+        outside = _outside(tmp, target)
         left = f'files {files[:6]} dirs {dirs[:6]}' + (f' OUTSIDE the target: {outside}' if outside else '')
         _verdict(out, mod, fprints, target, files, dirs, outside, left, rejected, crashed,
                  (must_reject, may_reject, cause), tmp)
         if prev_fmt is not None:
             # the earlier report must be unaffected by the later one
-            target2 = os.path.join(tmp, 'earlier')
+            target2 = os.path.join(tmp, 'out-earlier')
             try:
                 prev_fmt.write(target2)
             except Exception as exc:   # noqa: BLE001 -- nothing may be raised for this tree
@@ -460,7 +475,8 @@ def _verdict(out, mod, fprints, target, files, dirs, outside, left, rejected, cr
     must_reject, may_reject, cause = expect
     if crashed is not None:
         out.labels.append('crashed')
-        ccause = 'collision=' + mod['collisions'][0] if mod['collisions'] else cause
+        ccause = ('collision=' + mod['collisions'][0]
+                  if mod['collisions'] and cause != 'too-deep' else cause)
         tname = 'OSError' if isinstance(crashed, OSError) else type(crashed).__name__
         out.failures.append(Failure(
             'write_raises', f'C20/write_raises/{tname}/{ccause}',
@@ -496,6 +512,20 @@ def _verdict(out, mod, fprints, target, files, dirs, outside, left, rejected, cr
     else:
         for sig, det in problems:
             out.failures.append(Failure(sig.split('/')[1], sig, det[:400]))
+
+
+def _outside(tmp, target):
+    """Everything below ``tmp`` that is neither in the target nor above it."""
+    found = []
+    for base, dnames, fnames in os.walk(tmp):
+        if base == target:
+            dnames[:] = []
+            continue
+        for name in dnames + fnames:
+            path = os.path.join(base, name)
+            if not (target == path or target.startswith(path + os.sep)):
+                found.append(os.path.relpath(path, tmp))
+    return sorted(found)
 
 
 def _close_figures():
@@ -577,7 +607,7 @@ def _compare(mod, fprints, target, files):
                 problems.append((f'C20/toc_wrong_page/{depth}',
                                  f'{page!r} lists {entry!r} = {tgt!r}, not a sub-section of {chain!r}'))
         for child in sorted(children - listed):
-            problems.append((f'C20/toc_incomplete/{feat}',
+            problems.append(('C20/toc_incomplete',
                              f'{page!r} does not list its sub-section page {child!r}'))
         # 5. figures
         for line in lines[page]:
